@@ -82,6 +82,20 @@ type Case struct {
 	// SameClient (session rig): the mapping's listen and target client are one client that opens both
 	// tunnel connections (loopback mapping)
 	SameClient bool `json:"same_client,omitempty"`
+	// WSEnd "A"/"B" (session rig): that end's tunnel connection comes in through the HTTP service's
+	// WebSocket transport (/_tunnox): real WebSocketModule + WebSocketServerConn over loopback
+	WSEnd string `json:"ws_end,omitempty"`
+	// CrossNode (session rig): the target is attached on another node which forwards it to this node's
+	// CrossNodeListener; the TargetReady frame and the target's first bytes arrive in one TCP write
+	CrossNode bool `json:"cross_node,omitempty"`
+	// StatsStall (bridge rig): traffic accounting is configured and its backend (CloudControl) hangs
+	// from the start until the harness has seen both ends closed
+	StatsStall bool `json:"stats_stall,omitempty"`
+	// PauseEnd "A"/"B": that end does not read for PauseMs behind a pipe bounded to PausePipe bytes, then
+	// reads on (a slow consumer; nobody closes meanwhile)
+	PauseEnd  string `json:"pause_end,omitempty"`
+	PauseMs   int    `json:"pause_ms,omitempty"`
+	PausePipe int    `json:"pause_pipe,omitempty"`
 	Ending      Ending `json:"ending"`
 }
 
@@ -158,6 +172,11 @@ type end struct {
 	tail   int           // the writer holds its last tail bytes back until tailGo is closed
 	tailGo chan struct{}
 	gap    time.Duration // pause after every write
+	pause  time.Duration // the reader starts reading only after this long
+	abort  chan struct{} // closed at the end of the case
+	// closeOnEOF: a client that closes its connection when it reads EOF (needed where the server only
+	// half-closes towards it: cross-node forward)
+	closeOnEOF bool
 
 	mu  sync.Mutex
 	bad string
@@ -167,6 +186,12 @@ func (e *end) reader() {
 	defer close(e.readDone)
 	if e.stall != nil {
 		<-e.stall
+	}
+	if e.pause > 0 {
+		select {
+		case <-time.After(e.pause):
+		case <-e.abort:
+		}
 	}
 	buf := make([]byte, 64*1024)
 	off := 0
@@ -197,6 +222,9 @@ func (e *end) reader() {
 		if err != nil {
 			e.readErr = err
 			e.doneAt = time.Now()
+			if e.closeOnEOF {
+				e.closeClient()
+			}
 			return
 		}
 	}
@@ -326,6 +354,7 @@ type obs struct {
 	readsB       int64
 	recvA, recvB int64
 	closeLatency time.Duration
+	statsPending bool
 }
 
 func limClass(l int64) string { return fmt.Sprintf("limit=%d", l) }
@@ -379,6 +408,21 @@ func runCase(c Case, boundScale int) (*failure, *obs) {
 			}
 		}
 	}
+	abort := make(chan struct{})
+	A.abort, B.abort = abort, abort
+	var pauseX *end
+	switch c.PauseEnd {
+	case "A":
+		pauseX = A
+	case "B":
+		pauseX = B
+	}
+	if pauseX != nil {
+		pauseX.pause = time.Duration(c.PauseMs) * time.Millisecond
+	}
+	if c.CrossNode {
+		A.closeOnEOF, B.closeOnEOF = true, true
+	}
 	if c.SpreadMs > 0 {
 		A.gap = spreadGap(c.SpreadMs, c.WritesAB, c.LenAB)
 		B.gap = spreadGap(c.SpreadMs, c.WritesBA, c.LenBA)
@@ -388,6 +432,8 @@ func runCase(c Case, boundScale int) (*failure, *obs) {
 	defer func() {
 		// nothing of this case may outlive it
 		releaseStall()
+		close(abort)
+		r.release()
 		aN.Close()
 		bN.Close()
 		aS.Close()
@@ -455,6 +501,10 @@ func runCase(c Case, boundScale int) (*failure, *obs) {
 	if stallX == A {
 		aN.SetMaxBuffered(c.Ending.K) // the server's writes towards A block once K bytes are unread
 	}
+	if pauseX == A && c.PausePipe > 0 {
+		aN.SetMaxBuffered(c.PausePipe)
+	}
+	pauseUntil := time.Now().Add(time.Duration(c.PauseMs)*time.Millisecond + 500*time.Millisecond)
 	launched = true
 	aWriter := false
 	startAWriter := func() {
@@ -478,11 +528,26 @@ func runCase(c Case, boundScale int) (*failure, *obs) {
 		if stallX == B {
 			bN.SetMaxBuffered(c.Ending.K)
 		}
+		if pauseX == B && c.PausePipe > 0 {
+			bN.SetMaxBuffered(c.PausePipe)
+		}
+		if pauseX == B {
+			pauseUntil = time.Now().Add(time.Duration(c.PauseMs)*time.Millisecond + 500*time.Millisecond)
+		}
 		go B.reader()
 		go B.writer(c.WritesBA, upB, c.Pace, earlyB)
 	}
-	if !c.Mini {
+	bFirst := !c.Mini || c.CrossNode
+	if bFirst {
 		startB() // bytes B sends before the server attaches it wait in its connection
+	}
+	if c.CrossNode && upB > 0 {
+		// the target speaks first: its first bytes travel with the TargetReady frame
+		select {
+		case <-B.firstWrite:
+		case <-time.After(20 * time.Second):
+			return &failure{key: "C02/harness/first-write-never-happened", detail: kind}, o
+		}
 	}
 	var af *failure
 	switch attach {
@@ -499,7 +564,7 @@ func runCase(c Case, boundScale int) (*failure, *obs) {
 		}
 		af = r.attach()
 	}
-	if c.Mini {
+	if !bFirst {
 		startB() // B's TunnelOpenAck has to be consumed as a packet before raw bytes flow
 	}
 	if delayA {
@@ -550,7 +615,22 @@ func runCase(c Case, boundScale int) (*failure, *obs) {
 		if c.Limit > 0 {
 			l = "limited"
 		}
-		return "C02/loss/" + kind + "/" + l + "/" + dir
+		if c.WSEnd != "" && kind == "flush-close-"+c.WSEnd {
+			// the WebSocket end wrote everything and closed at once: WebSocketServerConn.Read checks
+			// "closed" before the messages still queued in its stream channel
+			return "C02/websocket/queued-data-dropped-when-the-ws-end-closes/end=" + c.WSEnd
+		}
+		ctxs := ""
+		if c.WSEnd != "" {
+			ctxs += "/websocket-end=" + c.WSEnd
+			if c.PauseMs > 0 {
+				ctxs += "/slow-consumer"
+			}
+		}
+		if c.CrossNode {
+			ctxs += "/cross-node-target"
+		}
+		return "C02/loss/" + kind + "/" + l + "/" + dir + ctxs
 	}
 	state := func() string {
 		return fmt.Sprintf("A received %d/%d, B received %d/%d; server wrote %d to A, %d to B; server conns closed: A=%v B=%v; largest server read A=%d B=%d; A read err=%v, B read err=%v",
@@ -565,12 +645,12 @@ func runCase(c Case, boundScale int) (*failure, *obs) {
 		progress := func() int64 { return A.recv.Load() + B.recv.Load() + A.sent.Load() + B.sent.Load() }
 		last, lastAt := progress(), time.Now()
 		stalled := false
-		overall := bound + 5*time.Second + time.Duration(c.SpreadMs)*time.Millisecond
+		overall := bound + 5*time.Second + time.Duration(c.SpreadMs+c.PauseMs)*time.Millisecond
 		ok := waitFor(overall, func() bool {
 			if pre() || premature() {
 				return true
 			}
-			if p := progress(); p != last {
+			if p := progress(); p != last || time.Now().Before(pauseUntil) {
 				last, lastAt = p, time.Now()
 			} else if time.Since(lastAt) > bound {
 				stalled = true
@@ -590,7 +670,14 @@ func runCase(c Case, boundScale int) (*failure, *obs) {
 			if A.recv.Load() < int64(upB) {
 				dir += "b->a"
 			}
-			return &failure{key: "C02/stalled/" + r.name + "/" + kind + "/" + dir, timing: true,
+			where := r.name
+			if c.CrossNode {
+				where += "/cross-node-target"
+			}
+			if c.WSEnd != "" {
+				where += "/websocket-end=" + c.WSEnd
+			}
+			return &failure{key: "C02/stalled/" + where + "/" + kind + "/" + dir, timing: true,
 				detail: fmt.Sprintf("both ends are attached and nobody closed, yet no byte was delivered for %v: %s", bound, state())}, false
 		}
 		if premature() || aS.IsClosed() || bS.IsClosed() {
@@ -709,6 +796,15 @@ func runCase(c Case, boundScale int) (*failure, *obs) {
 	if c.Mini && c.SameClient {
 		kindKey += "/same-client-mapping"
 	}
+	if c.StatsStall {
+		kindKey += "/stats-backend-stalled"
+	}
+	if c.CrossNode {
+		kindKey += "/cross-node-target"
+	}
+	if c.WSEnd != "" {
+		kindKey += "/websocket-end=" + c.WSEnd
+	}
 	// after the first close / failure: both ends observe closure within bounded time
 	if !waitFor(bound, func() bool { return isDone(A.readDone) && isDone(B.readDone) }) {
 		who := ""
@@ -729,6 +825,18 @@ func runCase(c Case, boundScale int) (*failure, *obs) {
 	if d := last.Sub(t0); d > 0 {
 		o.closeLatency = d
 	}
+	if c.StatsStall {
+		// the statistics backend is still hanging: the server must have let go of both connections
+		// nevertheless; only then the backend answers and the run can end
+		if !waitFor(bound, func() bool { return aS.IsClosed() && bS.IsClosed() }) {
+			fill()
+			return &failure{key: "C02/server-conn-left-open/" + kindKey, timing: true, detail: "while the statistics backend hangs: " + state()}, o
+		}
+		if r.statsHits() > 0 {
+			o.statsPending = true
+		}
+		r.release()
+	}
 	// ... and the bridge run ends (runBridgeLifecycle forgets the tunnel when Start returns)
 	if !waitFor(bound, startDone) {
 		fill()
@@ -745,6 +853,12 @@ func runCase(c Case, boundScale int) (*failure, *obs) {
 			dir := "a->b"
 			if e == A {
 				dir = "b->a"
+			}
+			if c.CrossNode {
+				dir += "/cross-node-target"
+			}
+			if c.WSEnd != "" {
+				dir += "/websocket-end=" + c.WSEnd
 			}
 			return &failure{key: "C02/not-a-prefix/" + dir, detail: bad + "; " + state()}, o
 		}
@@ -768,6 +882,17 @@ func runCase(c Case, boundScale int) (*failure, *obs) {
 	}
 	// byte counters equal delivered byte counts
 	sentCtr, recvCtr := r.counters()
+	if r.noCounters {
+		sentCtr, recvCtr = bS.BytesWritten()-baseB, aS.BytesWritten()-baseA
+	}
+	// towards a WebSocket end the harness only sees what the client-side relay handed on, not what the
+	// server wrote into the socket
+	if c.WSEnd == "A" {
+		recvCtr = aS.BytesWritten() - baseA
+	}
+	if c.WSEnd == "B" {
+		sentCtr = bS.BytesWritten() - baseB
+	}
 	if got, want := sentCtr, bS.BytesWritten()-baseB; got != want {
 		return &failure{key: "C02/counter/bytes-sent", detail: fmt.Sprintf("GetBytesSent=%d but %d bytes were written to the target connection (%s)", got, want, kind)}, o
 	}
@@ -775,8 +900,13 @@ func runCase(c Case, boundScale int) (*failure, *obs) {
 		return &failure{key: "C02/counter/bytes-received", detail: fmt.Sprintf("GetBytesReceived=%d but %d bytes were written to the source connection (%s)", got, want, kind)}, o
 	}
 	// the server let go of both connections
-	if !aS.IsClosed() || !bS.IsClosed() {
-		return &failure{key: "C02/server-conn-left-open/" + kind, detail: state()}, o
+	// (an end behind a relay - WebSocket client, remote node - learns it a moment after the relay does)
+	grace := 10 * time.Millisecond
+	if c.WSEnd != "" || c.CrossNode {
+		grace = bound
+	}
+	if !waitFor(grace, func() bool { return aS.IsClosed() && bS.IsClosed() }) {
+		return &failure{key: "C02/server-conn-left-open/" + kindKey, detail: state()}, o
 	}
 	return nil, o
 }
@@ -824,7 +954,7 @@ func capBucket(n int) string {
 }
 
 func caseSig(c Case) string {
-	return fmt.Sprintf("%v|%s|%s|%d|%s|%s|%v|%s|%s|%d|%d|%v", fmt.Sprint(c.Mini, c.SameClient, c.HeartbeatMs > 0), sizeBucket(c.LenAB), sizeBucket(c.LenBA), c.Limit, c.Ending.Kind+c.Ending.ErrKind, c.Attach, c.Stream,
+	return fmt.Sprintf("%v|%s|%s|%d|%s|%s|%v|%s|%s|%d|%d|%v", fmt.Sprint(c.Mini, c.SameClient, c.HeartbeatMs > 0, c.WSEnd, c.CrossNode, c.StatsStall, c.PauseMs > 0), sizeBucket(c.LenAB), sizeBucket(c.LenBA), c.Limit, c.Ending.Kind+c.Ending.ErrKind, c.Attach, c.Stream,
 		capBucket(c.SrvReadCapA), capBucket(c.SrvReadCapB), len(c.WritesAB), len(c.WritesBA), c.DataWithEOF)
 }
 
@@ -963,6 +1093,21 @@ func check(t vkit.TB, c Case) {
 	}
 	if c.SameClient {
 		vkit.Class("feat:same-client (loopback) mapping")
+	}
+	if c.WSEnd != "" {
+		vkit.Class("feat:websocket transport end=" + c.WSEnd)
+	}
+	if c.PauseMs > 0 {
+		vkit.Class(fmt.Sprintf("feat:slow consumer pauses >=%ds", c.PauseMs/1000))
+	}
+	if c.CrossNode {
+		vkit.Class("feat:target attached through the cross-node listener")
+	}
+	if c.StatsStall {
+		vkit.Class("feat:stats backend hangs at close")
+		if o.statsPending {
+			vkit.Class("feat:stats call was pending while closure was observed")
+		}
 	}
 	if c.HeartbeatMs > 0 {
 		vkit.Class("feat:tunnel outlives the heartbeat timeout")
@@ -1236,6 +1381,121 @@ func TestBackPressure(t *testing.T) {
 		c.Ending = Ending{Kind: kind, K: pipe}
 		check(t, c)
 	})
+}
+
+var closingKinds = []string{"drain-close-A", "drain-close-B", "flush-close-A", "flush-close-B", "early-close-A", "early-close-B",
+	"fail-read-srvA", "fail-read-srvB", "fail-write-srvA", "fail-write-srvB", "bridge-close"}
+
+// TestStatsStall: bridges with traffic accounting whose CloudControl backend hangs. Whatever ends the
+// tunnel, both ends must see the closure and the server must let go of both connections while the
+// final statistics call is still pending; the run ends once the backend answers.
+func TestStatsStall(t *testing.T) {
+	property(t, 240, 2400, func(t *rapid.T) {
+		c := genCase(t, []int64{0, 0, 10 * 1024 * 1024})
+		c.StatsStall = true
+		if c.LenAB == 0 {
+			c.LenAB = 1 + int(c.SeedAB%5000)
+			c.WritesAB = nil
+		}
+		if c.LenBA == 0 {
+			c.LenBA = 1 + int(c.SeedBA%5000)
+			c.WritesBA = nil
+		}
+		c.Ending = genEnding(t, c)
+		check(t, c)
+	})
+}
+
+// TestSessionCrossNode: the source is attached on the mini-server, the target on "another node" that
+// connects to this node's real CrossNodeListener; the target speaks first and its first bytes arrive
+// in the same TCP write as the TargetReady frame.
+func TestSessionCrossNode(t *testing.T) {
+	property(t, 160, 1600, func(t *rapid.T) {
+		c := Case{Mini: true, Stream: true, CrossNode: true, Attach: "after-start"}
+		c.LenAB = genLen(t, "lenAB", 200000, 200000, 0)
+		c.LenBA = 1 + genLen(t, "lenBA", 200000, 200000, 0)
+		c.SeedAB = uint64(rapid.IntRange(0, 65535).Draw(t, "seedAB"))
+		c.SeedBA = uint64(rapid.IntRange(0, 65535).Draw(t, "seedBA"))
+		c.WritesAB = genWrites(t, "writesAB", c.LenAB, 2000)
+		// the banner: what the target has written when its node sends TargetReady
+		first := rapid.SampledFrom([]int{1, 28, 200, 1460, 4000, 4096, 9000}).Draw(t, "banner")
+		c.WritesBA = []int{first, rapid.SampledFrom([]int{1460, 8192, 70000}).Draw(t, "restWrites")}
+		c.Pace = rapid.SampledFrom([]int{0, 1, 2}).Draw(t, "pace")
+		c.SrvReadCapA = genCap(t, "srvCapA", c.LenAB, 20000)
+		c.Ending = Ending{Kind: rapid.SampledFrom([]string{"drain-close-A", "drain-close-B", "flush-close-A", "flush-close-B"}).Draw(t, "ending")}
+		check(t, c)
+	})
+}
+
+// wsEnds: which end may use the WebSocket transport. Until fix b2ec86a a WebSocket TARGET end crashed the
+// process (the bridge was attached before the connection was in stream mode: concurrent gorilla readers);
+// with the fix committed both ends are generated, and the child-process supervisor turns a crash of the
+// shard into a violation if the defect ever returns.
+func wsEnds() []string { return []string{"A", "B"} }
+
+// TestSessionWebSocket: one end's tunnel connection comes in through the HTTP service's WebSocket
+// transport (stream mode: StartStreamModeReader feeds PushStreamData, the bridge reads the channel).
+func TestSessionWebSocket(t *testing.T) {
+	property(t, 160, 1600, func(t *rapid.T) {
+		c := Case{Mini: true, Stream: true, WSEnd: rapid.SampledFrom(wsEnds()).Draw(t, "wsEnd")}
+		c.LenAB = genLen(t, "lenAB", 300000, 300000, 0)
+		c.LenBA = genLen(t, "lenBA", 300000, 300000, 0)
+		c.SeedAB = uint64(rapid.IntRange(0, 65535).Draw(t, "seedAB"))
+		c.SeedBA = uint64(rapid.IntRange(0, 65535).Draw(t, "seedBA"))
+		c.WritesAB = genWrites(t, "writesAB", c.LenAB, 2000)
+		c.WritesBA = genWrites(t, "writesBA", c.LenBA, 2000)
+		c.SrvReadCapA = genCap(t, "srvCapA", c.LenAB, 3000) // bounds the WebSocket message size of a WS end
+		c.SrvReadCapB = genCap(t, "srvCapB", c.LenBA, 3000)
+		c.Limit = rapid.SampledFrom([]int64{0, 0, 10 * 1024 * 1024}).Draw(t, "limit")
+		c.Attach = rapid.SampledFrom([]string{"after-start", "after-first-write"}).Draw(t, "attach")
+		c.SameClient = rapid.IntRange(0, 4).Draw(t, "sameClient") == 0
+		if len(wsEnds()) == 1 {
+			vkit.Excluded(1) // the WebSocket-target half of the space
+		}
+		c.Ending = Ending{Kind: rapid.SampledFrom([]string{"drain-close-A", "drain-close-B", "flush-close-A", "flush-close-B", "early-close-A", "early-close-B", "bridge-close"}).Draw(t, "ending")}
+		switch c.Ending.Kind {
+		case "early-close-A":
+			c.Ending.K = rapid.IntRange(0, c.LenAB).Draw(t, "k")
+		case "early-close-B":
+			c.Ending.K = rapid.IntRange(0, c.LenBA).Draw(t, "k")
+		case "bridge-close":
+			c.Ending.K = rapid.IntRange(0, c.LenAB+c.LenBA).Draw(t, "k")
+			c.Ending.Closers = 1
+		}
+		check(t, c)
+	})
+}
+
+// TestSessionWebSocketSlowConsumer: the WebSocket end floods (hundreds of messages) while the other
+// end does not read for more than five seconds behind a bounded pipe, so the bridge stops reading the
+// WebSocket end, its 100-slot stream channel fills and the reader goroutine waits in PushStreamData.
+// That is back-pressure, not a failure: when the consumer resumes, every byte must arrive and the
+// server must not have closed the tunnel. One case per shard in quick (they take the pause).
+func TestSessionWebSocketSlowConsumer(t *testing.T) {
+	n := vkit.Pick(1, 3)
+	for i := 0; i < n; i++ {
+		if !firstViolation.IsZero() && firstTiming && !vkit.Thorough() {
+			return
+		}
+		sh := vkit.Shard() + i*vkit.NShards()
+		c := Case{Mini: true, Stream: true, Attach: "after-start", SeedAB: uint64(100 + sh), SeedBA: uint64(200 + sh)}
+		c.PauseMs = 5500 + 300*(sh%4) + 2500*(i%3) // > 5 s in one stretch
+		c.PausePipe = []int{65536, 16384, 200000}[sh%3]
+		msg := []int{1024, 700, 4096}[(sh/3)%3]
+		flood := c.PausePipe + copyBuf + 320*msg
+		if sh%2 == 0 || len(wsEnds()) == 1 {
+			c.WSEnd, c.PauseEnd = "A", "B"
+			c.LenAB, c.LenBA = flood, 1000+sh
+			c.WritesAB, c.SrvReadCapA = []int{msg}, msg
+		} else {
+			c.WSEnd, c.PauseEnd = "B", "A"
+			c.LenBA, c.LenAB = flood, 1000+sh
+			c.WritesBA, c.SrvReadCapB = []int{msg}, msg
+		}
+		c.SameClient = sh%5 == 4
+		c.Ending = Ending{Kind: []string{"drain-close-A", "drain-close-B"}[(sh/2)%2]}
+		check(t, c)
+	}
 }
 
 // TestCloseRace (E3): Bridge.Close() from 1..3 goroutines released by a spin flag while both copy
